@@ -79,6 +79,9 @@ static int nroots = 0;
 #define MAXPLAN 16
 static struct { long k; char kind; long arg; } plan[MAXPLAN];
 static int nplan = 0;
+// plan kind 'E' (k:E:errno): a *persistent* failure — every event from k on, for SIMSHIM_REPEAT events (default 60),
+// fails with errno (what a full disk or a dying device looks like; a single failed call is often retried away)
+static long repeat_from = 0, repeat_n = 60, repeat_errno = 0;
 static __thread int64_t tl_clock_calls = 0;
 
 static const char *envs(const char *k) { return getenv(k); }
@@ -134,10 +137,12 @@ static void shim_init(void) {
             long arg = 0;
             p = end + 2;
             if (*p == ':') { arg = strtol(p + 1, &end, 10); p = end; }
-            plan[nplan].k = k; plan[nplan].kind = kind; plan[nplan].arg = arg; nplan++;
+            if (kind == 'E') { repeat_from = k; repeat_errno = arg; }
+            else { plan[nplan].k = k; plan[nplan].kind = kind; plan[nplan].arg = arg; nplan++; }
             if (*p == ',') p++;
         }
     }
+    if ((e = envs("SIMSHIM_REPEAT"))) repeat_n = atol(e);
     if ((e = envs("SIMSHIM_CTL"))) {
         int fd = atoi(e);
         if (RS2(SYS_fcntl, fd, F_GETFD) >= 0) { ctl = fd; RS3(SYS_fcntl, fd, F_SETFD, FD_CLOEXEC); }
@@ -218,7 +223,7 @@ static struct verdict event(char cls, const char *call, const char *arg, long le
     struct verdict v = {'G', 0};
     if (!active) return v;
     if (cls == 'R' && !gate_r) return v;
-    if (ctl < 0 && logfd < 0 && nplan == 0) return v;
+    if (ctl < 0 && logfd < 0 && nplan == 0 && repeat_from == 0) return v;
     if (!is_main()) {
         if (logfd >= 0) {
             char b[700];
@@ -238,6 +243,10 @@ static struct verdict event(char cls, const char *call, const char *arg, long le
             v.kind = plan[i].kind; v.arg = plan[i].arg;
             if (logfd >= 0) { char b[64]; int n = snprintf(b, sizeof b, "N fired-%c\n", v.kind); RS3(SYS_write, logfd, b, n); }
         }
+    if (repeat_from > 0 && k >= repeat_from && k < repeat_from + repeat_n) {
+        v.kind = 'F'; v.arg = repeat_errno;
+        if (logfd >= 0 && k == repeat_from) { char b[64]; int n = snprintf(b, sizeof b, "N fired-E\n"); RS3(SYS_write, logfd, b, n); }
+    }
     if (ctl >= 0) {
         char b[700];
         int n = snprintf(b, sizeof b, "%ld %c %s %s len=%ld", k, cls, call, arg ? arg : "", len);
